@@ -1,7 +1,7 @@
 //! C07 — no source line is silently dropped; a bad line affects only itself.
 //!
-//! Space: all files of up to m lines over a 17-kind line alphabet (8 good,
-//! 9 bad) x line ending {LF, CRLF} x final newline {yes, no}, as base file and
+//! Space: all files of up to m lines over a 20-kind line alphabet (8 good,
+//! 12 bad) x line ending {LF, CRLF} x final newline {yes, no}, as base file and
 //! (one cut) with the tail in an included file.
 
 use crate::driver::*;
@@ -36,8 +36,11 @@ pub enum LineKind {
     CharLiteral,
     BadUnclosedChar,
     BadCharEscape,
+    BadStringEscape,
+    BadStringTrailingBackslash,
+    BadCharTrailingBackslash,
 }
-pub const KINDS: [LineKind; 17] = [
+pub const KINDS: [LineKind; 20] = [
     LineKind::Inst,
     LineKind::LabelInst,
     LineKind::Label,
@@ -55,6 +58,9 @@ pub const KINDS: [LineKind; 17] = [
     LineKind::CharLiteral,
     LineKind::BadUnclosedChar,
     LineKind::BadCharEscape,
+    LineKind::BadStringEscape,
+    LineKind::BadStringTrailingBackslash,
+    LineKind::BadCharTrailingBackslash,
 ];
 
 impl LineKind {
@@ -70,6 +76,9 @@ impl LineKind {
                 | LineKind::BadString
                 | LineKind::BadUnclosedChar
                 | LineKind::BadCharEscape
+                | LineKind::BadStringEscape
+                | LineKind::BadStringTrailingBackslash
+                | LineKind::BadCharTrailingBackslash
         )
     }
     pub fn has_content(self) -> bool {
@@ -94,6 +103,9 @@ impl LineKind {
             LineKind::CharLiteral => "char-literal",
             LineKind::BadUnclosedChar => "bad-unclosed-char",
             LineKind::BadCharEscape => "bad-char-escape",
+            LineKind::BadStringEscape => "bad-string-escape",
+            LineKind::BadStringTrailingBackslash => "bad-string-trailing-backslash",
+            LineKind::BadCharTrailingBackslash => "bad-char-trailing-backslash",
         }
     }
     /// text of the line; `i` makes labels unique
@@ -116,6 +128,9 @@ impl LineKind {
             LineKind::CharLiteral => "    li a0, 'A'".into(),
             LineKind::BadUnclosedChar => "    li a0, 'A".into(),
             LineKind::BadCharEscape => "    li a0, '\\q'".into(),
+            LineKind::BadStringEscape => "    .asciz \"a\\qb\"".into(),
+            LineKind::BadStringTrailingBackslash => "    .asciz \"ab\\".into(),
+            LineKind::BadCharTrailingBackslash => "    li a0, '\\".into(),
         }
     }
 }
